@@ -3,7 +3,7 @@
 # temporary directory; the worktree's coq/gen is not touched).  Prints PASS, REFUSED <why> or BROKEN <lemma>.
 set -u
 HERE="$(cd "$(dirname "$0")" && pwd)"; ROOT="$(cd "$HERE/../../.." && pwd)"
-D="$1"; N="$(basename "$D" .diff)"; SC="/tmp/sc_T17_p_$N"; T="/tmp/sc_T17_pt_$N"
+D="$1"; N="$(basename "$D" .diff)"; SC="/tmp/sc_R17_p_$N"; T="/tmp/sc_R17_pt_$N"
 rm -rf "$T"; mkdir -p "$T"
 git -C /repo worktree add --detach "$SC" HEAD >/dev/null 2>&1 || { echo "$N: cannot create scratch copy"; exit 2; }
 ( cd "$SC" && grep -v '^#' "$HERE/$N.diff" | patch -p1 -s ) || { echo "$N: patch failed"; git -C /repo worktree remove --force "$SC"; exit 2; }
